@@ -381,6 +381,13 @@ def run(ctx):
     rng = ctx.rng
     for _ in range(ctx.scale(1400, 40000)):
         R0, R1 = pair3(rng)
+        kind = rng.random()
+        if kind < 0.08:          # degenerate ends: a pure translation (rotation exactly the identity) at one end, or the same rotation at both
+            R0, R1 = ref.rot(gen.unit_axis(rng), rel_angle(rng)), np.eye(3)
+        elif kind < 0.16:
+            R0, R1 = np.eye(3), ref.rot(gen.unit_axis(rng), rel_angle(rng))
+        elif kind < 0.22:
+            R1 = R0.copy()
         se = rng.random() < 0.5
         T0 = ref.rt2tr(R0, gen.transl(rng, hi=1e3)) if se else R0
         T1 = ref.rt2tr(R1, gen.transl(rng, hi=1e3)) if se else R1
